@@ -175,6 +175,17 @@ def handle : List Sexp → Option String
       let tags := triples n a
       let sub := a.drop (3 * n)
       some (out (GenK.wrapTags (indefOk == "1") (ine == "1") tags (dm == "1") sub (ic == "1") (io == "1")))
+  | .atom "KBITSDEC" :: args => do
+      let a ← intArgs args
+      some (match GenK.bitsDecode a a.length with
+        | .ok (v, n) => s!"ok {v} {n}"
+        | .error e => "err " ++ errName e)
+  | .atom "KBITSFROM" :: .atom pad :: args => do
+      let a ← intArgs args
+      let p ← pad.toInt?
+      some (match GenK.bitsFromOctets a p with
+        | .ok (v, n) => s!"ok {v} {n}"
+        | .error e => "err " ++ errName e)
   | .atom "KINTDEC" :: args => do
       let a ← intArgs args
       some (match GenK.intDecode a with
